@@ -70,6 +70,10 @@ K_CUBICS = {
     "zerohandle": ((0, 0), (0, 0), (50, 100), (100, 100)),
     "bigS": ((-16000, -16000), (16000, -16000), (-16000, 16000), (16000, 16000)),
     "hook": ((0, 0), (400, 0), (400, 30), (380, 40)),
+    # small arcs: the single-quadratic approximation error lies between 0.1 and 1 unit, so a
+    # tolerance below one unit really needs more segments
+    "arc50": ((50, 0), (50, 35), (35, 50), (0, 50)),
+    "arc30": ((30, 0), (30, 20), (20, 30), (0, 30)),
 }
 
 # closed quadratic "circle": every on-curve point is the midpoint of its off-curve neighbours
@@ -618,6 +622,12 @@ class C02(Property):
                 return [s for s in shapes if s not in CUBIC_SHAPES]
             return list(shapes)
 
+        # sub-unit tolerances on the cubic palette: an explicit error of 1/10000 em at 1000 upem (0.1
+        # unit) and the default error at 250 upem (0.25 unit)
+        for cc_, rev_, aq_ in itertools.product((True,), (True, False), (True, False)):
+            for err_, upm_ in ((0.0001, 1000), (None, 250), (0.0002, 500)):
+                add(dict(zip(OPT_KEYS, (cc_, rev_, False, aq_, err_, False, upm_))), part="shapes", cubic=True,
+                    module="ufoLib2")
         for c in cfgs:
             # palette shapes, cubic palette and special graphs: the full option product
             add(c, part="shapes", cubic=False, module="ufoLib2")
